@@ -1,5 +1,9 @@
 """C14 — images are returned bit-exact, numbered, on the right unit.
 
+Every generated document of the correspondence is ALSO judged by the property oracle (`check_doc`), whether or not the
+Lean model disagrees with the implementation: the model speaks about resolution, order, numbering and units; content
+type / pixel size outside OOXML and the bytes are decided by the oracle on every run.
+
 Correspondence of S2T.Model.Images with the real code on
   (1) the reference resolvers, (2) the extension -> content-type lookups, (3) the four dimension sniffers,
   (4) generated documents embedding 0..K images in docx / pptx / xlsx / odt / odp / ods / odg / epub / pdf / rtf
@@ -19,8 +23,12 @@ import struct
 from run import Broken, Violation
 from builders import c14docs as B
 
-GEN = ["Images", "PyZipUtils", "PyPptxPaths", "PyXlsxPaths", "PyDocxPaths", "PyOdfPaths", "PyEpubPaths"]
-RULE = ("documents: format x 0..4 units x 0..4 anchors per unit; anchor = embedded file referenced in a relative / parent-relative / "
+GEN = ["Images", "ImageParts", "PyZipUtils", "PyPptxPaths", "PyXlsxPaths", "PyDocxPaths", "PyOdfPaths", "PyEpubPaths"]
+RULE = ("documents: format x 0..4 units x 0..4 anchors per unit, plus per format documents with 11..13 numbered parts (pictures on one of the "
+        "parts 2..9 and on one of the parts >= 10, <= 12 picture files, sometimes 11..12 anchors on one part; PPTX part numbers permuted "
+        "against the deck order; DOCX ids rId2..rId13); PDF image XObject = codec (DCT/JPX/Flate/LZW) x 0..3 transport filters x "
+        "name | one-element array | chain, +/- /DecodeParms; /Filter values (absent, name, array of 0..4 known/unknown names) on real "
+        "pypdf streams; anchor = embedded file referenced in a relative / parent-relative / "
         "absolute / dotted form | referenced-but-missing member | external link; files = PNG/JPEG/GIF/BMP headers of random "
         "sizes with distinct tails, some shared between anchors; resolvers: (directory, target) over a segment alphabet "
         "incl. '.', '..', '', leading '/' (+ malformed: unicode, backslash, percent); sniffers: well-formed headers, truncations, "
@@ -31,7 +39,9 @@ ASSUMPTIONS = [
     "zipfile.ZipFile.read(name) returns the member's bytes (bit-exactness is that pass-through; compared byte for byte here)",
     "xml.etree / defusedxml give the element tree of the parts; dict relationship lookup by Id; anchors reach the model already "
     "paired with the Target of the relationship they embed",
-    "pypdf: /XObject dictionary, content-stream Do operators and get_data() (PDF side is only tied by this correspondence)",
+    "pypdf: /XObject dictionary, content-stream Do operators and get_data() incl. its decoding of the transport filters "
+    "(/FlateDecode, /LZWDecode, /ASCII85Decode, /ASCIIHexDecode, /RunLengthDecode; /DCTDecode and /JPXDecode pass the file through) "
+    "(PDF side is only tied by this correspondence)",
     "openpyxl sheet names (XLSX sheet list); the model takes sheet k's drawing from sheet{k}.xml.rels as the code does",
     "mimetypes.guess_type for ODF content types; EPUB content type is the manifest's media-type (pass-through)",
     "str.lower() on ASCII extensions; ODT text-box (captioned) first pass is not modelled (generated frames are plain)",
@@ -61,8 +71,11 @@ def run_impl(spec, data=None):
 def observe(res):
     def img(im):
         md = im.get_metadata()
-        return {"n": md.image_number, "u": md.unit_number, "ct": im.get_content_type(), "w": md.width, "h": md.height,
-                "b": im.get_bytes().getvalue()}
+        r = {"n": md.image_number, "u": md.unit_number, "ct": im.get_content_type(), "w": md.width, "h": md.height,
+             "b": im.get_bytes().getvalue()}
+        if hasattr(im, "filter") and hasattr(im, "format"):      # PdfImage: what the filter chain was read as
+            r["pf"] = [im.format, im.filter, getattr(im, "content_type", None)]
+        return r
     images = [img(im) for im in res.iterate_images()]
     units = []
     for u in res.iterate_units():
@@ -149,6 +162,7 @@ def header_dims(data: bytes):
     return None
 
 
+PDF_KIND_CTYPE = {"jpeg": "image/jpeg", "jpg": "image/jpeg", "jp2": "image/jp2"}
 DEDUP = {"docx": "ref", "odt": "ref", "odg": "ref", "epub": "ref"}     # one image per distinct reference text
 
 
@@ -183,6 +197,12 @@ def expected_ctype(spec, e):
     if fmt == "epub":
         return e["anchor"].get("media_type") or B.ext_ctype(e["ref"])
     kind = spec["media"][e["member"]]["kind"]
+    if fmt == "pdf":
+        # the content type follows the IMAGE CODEC of the XObject (a JPEG file stays image/jpeg however it is wrapped for
+        # transport: /FlateDecode, /LZWDecode, /ASCII85Decode, ... in front of /DCTDecode); raw samples are reported as
+        # image/png by the library's convention for /FlateDecode and /LZWDecode.  Decided from the KIND of the embedded
+        # file, not from the /Filter entry.
+        return PDF_KIND_CTYPE.get(kind, "image/png")
     return B.CTYPE.get(kind, "image/png")
 
 
@@ -338,7 +358,7 @@ def model_request(spec, names):
     pkg = [[n, media_ids.get(n, 0)] for n in names]
     req = {"op": "c14.extract", "fmt": fmt, "pkg": pkg}
     if fmt == "pptx":
-        req["units"] = [[[f"ppt/slides/slide{ui + 1}.xml", (a["ref"] if a["t"] != "external" else None)] for a in u] for ui, u in enumerate(spec["units"])]
+        req["units"] = [[[f"ppt/slides/slide{B.pptx_slide_file(spec, ui)}.xml", (a["ref"] if a["t"] != "external" else None)] for a in u] for ui, u in enumerate(spec["units"])]
     elif fmt == "pdf":
         req["pkg"] = []
         req["units"] = [[media_ids[a["part"]] for a in u] for u in spec["units"]]
@@ -360,6 +380,14 @@ def model_request(spec, names):
                 tgt, _ = B.xlsx_drawing_target(spec, i)
                 sheets.append([tgt, [[kinds[a.get("anchor", "two")], (a["ref"] if a["t"] != "external" else None)] for a in u]])
         req["units"] = sheets
+        # the same workbook as the package shows it: the model probes xl/worksheets/_rels/sheet{k}.xml.rels itself
+        req["n"] = len(spec["units"])
+        req["rels"], req["drawings"] = [], []
+        for i, u in enumerate(spec["units"]):
+            if u:
+                tgt, f = B.xlsx_drawing_target(spec, i)
+                req["rels"].append([f"xl/worksheets/_rels/sheet{f}.xml.rels", tgt])
+                req["drawings"].append([f"xl/drawings/drawing{f}.xml", [[kinds[a.get("anchor", "two")], (a["ref"] if a["t"] != "external" else None)] for a in u]])
     elif fmt == "docx":
         rid_of, rels = B.docx_rels(spec)
         req["units"] = [["rId1", False, "styles.xml"]] + [[i, True, t] for i, _, t, _ in rels]
@@ -424,10 +452,40 @@ def _rand_image(rng, idx, kinds=("png", "jpeg", "gif", "bmp")):
 EXTS = {"png": ["png", "PNG"], "jpeg": ["jpg", "jpeg", "JPG"], "gif": ["gif"], "bmp": ["bmp", "BMP"]}
 
 
-def gen_spec(rng, fmt, wild=False):
-    """a document spec of format `fmt`; `wild` adds the unusual reference forms"""
+PDF_TRANSPORT = ("/FlateDecode", "/LZWDecode", "/ASCII85Decode", "/ASCIIHexDecode", "/RunLengthDecode")
+
+
+def _pdf_media(rng, idx, m):
+    """PDF image XObject: codec (the LAST filter of the decode chain) x transport / general-purpose filters in front of
+    it x the form of the /Filter entry (name | one-element array | chain array, with or without /DecodeParms)"""
+    r = rng.random()
+    if r < 0.2:
+        m = {"kind": "jp2", "w": m["w"], "h": m["h"], "tail": ("%04x" % idx) + "".join("%02x" % rng.randrange(256) for _ in range(rng.randint(0, 8)))}
+        codec = "/JPXDecode"
+    elif r < 0.4:     # raw samples: the codec is the general-purpose compression itself
+        m = {"kind": "raw", "w": m["w"], "h": m["h"], "tail": ("%04x" % idx) + "".join("%02x" % rng.randrange(256) for _ in range(rng.randint(1, 24)))}
+        codec = rng.choice(["/FlateDecode", "/FlateDecode", "/LZWDecode"])
+    else:
+        codec = "/DCTDecode"
+    n_tr = rng.choice([0, 0, 1, 1, 1, 2, 2, 3])
+    m["filters"] = [rng.choice(PDF_TRANSPORT) for _ in range(n_tr)] + [codec]
+    m["filter_form"] = rng.choice(["name", "array"])
+    if rng.random() < 0.2:
+        m["parms"] = True
+    return m
+
+
+def gen_spec(rng, fmt, wild=False, many=False):
+    """a document spec of format `fmt`; `wild` adds the unusual reference forms; `many`: 11..13 numbered parts
+    (slides / sheets / pages / paragraphs / chapters) with pictures on one of the parts 2..9 AND on one of the parts >= 10
+    (the string order of numbered part names - sheet1, sheet10, sheet11, sheet2 - differs from their numeric order only
+    from ten parts on), up to 12 picture files (image10 < image2) and sometimes one part with 11..12 anchors
+    (rId10 < rId2, /Im10 < /Im2)"""
     n_units = rng.choice([0, 1, 1, 2, 2, 3, 4]) if fmt not in ("rtf", "pdf") else rng.choice([1, 1, 2, 3, 4])
     n_media = rng.randint(0, 4)
+    if many:
+        n_units = rng.randint(11, 13)
+        n_media = rng.randint(2, 12)
     kinds = ("png", "jpeg", "gif", "bmp")
     if fmt == "pdf":
         kinds = ("jpeg",)
@@ -440,7 +498,9 @@ def gen_spec(rng, fmt, wild=False):
         opts["opf_dir"] = opf_dir
     for i in range(n_media):
         m = _rand_image(rng, i, kinds)
-        ext = m.get("ext") or rng.choice(EXTS[m["kind"]])
+        if fmt == "pdf":
+            m = _pdf_media(rng, i, m)
+        ext = m.get("ext") or rng.choice(EXTS.get(m["kind"], ["bin"]))
         base = f"image{i + 1}.{ext}"
         if fmt in ("rtf", "pdf"):
             name = f"m{i}"
@@ -483,10 +543,19 @@ def gen_spec(rng, fmt, wild=False):
     names = list(media)
     units = []
     total = 0
-    for _ in range(n_units):
+    wide_unit = rng.randrange(n_units) if (many and rng.random() < 0.4) else -1
+    lo_part = rng.randint(1, 8) if many else -1               # 0-based index of one of the parts 2..9
+    hi_part = rng.randint(9, n_units - 1) if many else -1     # ... and of one of the parts 10..n
+    for ui in range(n_units):
         u = []
-        for _ in range(rng.choice([0, 1, 1, 2, 3, 4])):
+        n_anch = rng.choice([0, 1, 1, 2, 3, 4]) if not many else (rng.randint(11, 12) if ui == wide_unit else rng.choice([0, 0, 0, 1, 1, 2]))
+        forced = many and ui in (lo_part, hi_part)
+        if forced:
+            n_anch = max(n_anch, rng.randint(1, 2))
+        for ai in range(n_anch):
             r = rng.random()
+            if forced and ai == 0:
+                r = 0.0                       # the parts that make the order visible carry at least one embedded picture
             if fmt in ("rtf", "pdf"):
                 if names:
                     u.append({"t": "embed", "part": rng.choice(names)})
@@ -520,6 +589,12 @@ def gen_spec(rng, fmt, wild=False):
         opts["drawing_ref"] = "abs"
     if fmt == "pptx" and rng.random() < 0.3:
         opts["rels_reversed"] = True
+    if fmt == "pptx" and n_units > 1 and (many or wild) and rng.random() < 0.5:
+        perm = list(range(n_units))            # re-ordered deck: part names keep their numbers, p:sldIdLst gives the order
+        rng.shuffle(perm)
+        opts["slide_files"] = perm
+    if fmt == "docx" and many:
+        opts["rid_base"] = 2
     if fmt == "epub" and rng.random() < 0.3:
         opts["items_images_first"] = True
     spec = {"fmt": fmt, "media": media, "units": units, "opts": opts}
@@ -529,6 +604,35 @@ def gen_spec(rng, fmt, wild=False):
             if a["t"] == "embed":
                 assert designated(spec, ui, a) == a["part"], (fmt, a)
     return spec
+
+
+PDF_FILTER_NAMES = ["/DCTDecode", "/DCTDecode", "/JPXDecode", "/FlateDecode", "/FlateDecode", "/LZWDecode", "/CCITTFaxDecode", "/JBIG2Decode",
+                    "/ASCII85Decode", "/ASCIIHexDecode", "/RunLengthDecode", "/Crypt", "/Fl", "/DCT", "/Unknown"]
+
+
+def gen_pdf_filter(rng):
+    """a /Filter value: None (absent) | name | array of 0..4 names"""
+    r = rng.random()
+    if r < 0.05:
+        return None
+    if r < 0.25:
+        return rng.choice(PDF_FILTER_NAMES)
+    return [rng.choice(PDF_FILTER_NAMES) for _ in range(rng.choice([0, 1, 1, 2, 2, 2, 3, 3, 4]))]
+
+
+def pdf_extract_image_filter(fv):
+    """[format, filter, content type] the real `_extract_image` stores for an image XObject whose /Filter is `fv`"""
+    from pypdf.generic import ArrayObject, DecodedStreamObject, NameObject, NumberObject
+    from sharepoint2text.parsing.extractors.pdf import pdf_extractor as P
+    st = DecodedStreamObject()
+    st[NameObject("/Subtype")] = NameObject("/Image")
+    st[NameObject("/Width")] = NumberObject(3)
+    st[NameObject("/Height")] = NumberObject(2)
+    if fv is not None:
+        st[NameObject("/Filter")] = ArrayObject([NameObject(x) for x in fv]) if isinstance(fv, list) else NameObject(fv)
+    st._data = b"\x00" * 18
+    im = P._extract_image(st, "/Im0", 1, 1, "")
+    return [im.format, im.filter, im.content_type]
 
 
 SEGS = ["a", "b", "media", "img", "..", "..", ".", "", "x.png", "sub", "ppt", "slides", "Pictures"]
@@ -683,6 +787,22 @@ def correspondence(ctx):
         ctx.count(f"ctype/{rq['fn']}")
         if o.get("r") != got:
             note(f"c14.ctype/{rq['fn']}", f"impl={got!r} model={o.get('r', o)!r}", {"fn": rq["fn"], "t": rq["t"]})
+    # (2b) PDF: /Filter entry -> (format, filter, content type) of `_extract_image` on real pypdf stream objects
+    reqs, impls = [], []
+    for i in range(ctx.n(150, 1500)):
+        fv = gen_pdf_filter(rng)
+        try:
+            got = pdf_extract_image_filter(fv)
+        except Exception as e:
+            got = f"RAISED:{type(e).__name__}"
+        reqs.append({"op": "c14.pdffilter", "f": fv if fv is not None else ""})
+        impls.append(got)
+    for rq, got, o in zip(reqs, impls, ctx.drive(reqs)):
+        f = rq["f"]
+        ctx.case(("pdffilter", json.dumps(f)), nontrivial=isinstance(f, list) and len(f) > 1)
+        ctx.count("pdffilter/" + ("name" if not isinstance(f, list) else f"array-{min(len(f), 3)}"))
+        if [o.get("format"), o.get("filter"), o.get("ct")] != got:
+            note("c14.pdffilter", f"impl={got!r} model={o!r}", {"f": f})
     # (3) sniffers
     reqs, impls = [], []
     from sharepoint2text.parsing.extractors.data_types import DocxImage
@@ -716,6 +836,8 @@ def correspondence(ctx):
         for i in range(per_fmt):
             spec = gen_spec(rng, fmt, wild=(i % 2 == 1))
             cases.append(spec)
+        for i in range(ctx.n(8, 60)):          # >= 11 numbered parts, pictures on parts 2..9 and >= 10
+            cases.append(gen_spec(rng, fmt, wild=(i % 2 == 1), many=True))
     for w in committed_specs():
         cases.append(w)
     reqs, keep = [], []
@@ -736,6 +858,10 @@ def correspondence(ctx):
         n_anchor = sum(len(u) for u in spec["units"])
         ctx.case(("doc", json.dumps(spec, sort_keys=True)), nontrivial=n_anchor > 0)
         ctx.count(f"doc/{fmt}/" + ("no-anchor" if n_anchor == 0 else "anchors"))
+        if len(spec["units"]) >= 11:
+            ctx.count(f"doc/{fmt}/parts>=11")
+        if any(len(u) >= 11 for u in spec["units"]):
+            ctx.count(f"doc/{fmt}/anchors-on-one-part>=11")
         for u in spec["units"]:
             for a in u:
                 ctx.count(f"anchor/{fmt}/{a['t']}")
@@ -748,6 +874,28 @@ def correspondence(ctx):
         if got != o["units"]:
             note(f"c14.extract/{fmt}", f"impl={got} model={o['units']}", {"spec": spec})
             continue
+        if "units_pkg" in o and got != o["units_pkg"]:
+            note(f"c14.extract/{fmt}/from-package", f"impl={got} model={o['units_pkg']}", {"spec": spec})
+            continue
+        # PDF: format / filter / content type of every returned XObject through the model's filter-chain reading
+        if fmt == "pdf":
+            rq3, exp3 = [], []
+            for r in obs["images"]:
+                m = spec["media"].get(_name_of(spec, r["b"]))
+                if m is None or "pf" not in r:
+                    continue
+                fl = B.pdf_filters(m)
+                rq3.append({"op": "c14.pdffilter", "f": fl if (len(fl) > 1 or m.get("filter_form") == "array") else fl[0]})
+                exp3.append(r)
+                ctx.count("pdf-filter/" + ("name" if not isinstance(rq3[-1]["f"], list) else f"array-{min(len(fl), 3)}") + "/" + fl[-1])
+            for r, o3 in zip(exp3, ctx.drive(rq3)):
+                if [o3.get("format"), o3.get("filter"), o3.get("ct")] != r["pf"] or o3.get("ct") != r["ct"]:
+                    note("c14.extract/pdf/filter", f"impl={r['pf']} / {r['ct']!r} model={o3}", {"spec": spec})
+        # the property statement itself on every generated document (oracle on the real code, independent of the model):
+        # what the model does not speak about (content type / pixel size outside OOXML, bytes, views) is judged here
+        for k, w in check_doc(spec, obs):
+            if k not in OPEN_WITNESSES and not any(v.key == k for v in violations):
+                violations.append(Violation(k, f"{fmt} document {json.dumps(spec['units'])[:160]}: {w}", {"spec": spec}))
         # content type and size of the OOXML images through the model's functions
         if fmt in ("docx", "pptx", "xlsx"):
             rq2, exp2 = [], []
@@ -947,7 +1095,7 @@ def search(ctx, broken):
     rng = ctx.rng
     for i in range(ctx.n(600, 6000)):
         fmt = FORMATS[i % len(FORMATS)]
-        if run(gen_spec(rng, fmt, wild=(i % 3 != 0))):
+        if run(gen_spec(rng, fmt, wild=(i % 3 != 0), many=(i // len(FORMATS)) % 3 == 1)):
             return found
     # sniffers on raw headers inside a minimal document
     for i in range(ctx.n(300, 3000)):
